@@ -347,7 +347,72 @@ func runC19(outDir string, seed int64, tier string) {
 		sum.CaseFiles = append(sum.CaseFiles, name)
 		nf++
 	}
+	c19Rewind(sum, outDir)
 	sum.write(outDir, start)
+}
+
+// c19Rewind: a file opened with reposition(true) is read until end_of_file has been delivered (and once more,
+// where the eof_action allows), then set back to a position recorded earlier: from there on the stream
+// delivers what a fresh stream delivers from that position, and is not at or past its end.
+func c19Rewind(sum *runSummary, outDir string) {
+	id := 900000
+	tmp := filepath.Join(outDir, "rewind.txt")
+	for _, src := range []string{"abc", "é日x", "a", "hello.\nworld.\n"} {
+		if err := os.WriteFile(tmp, []byte(src), 0o644); err != nil {
+			fatal("%v", err)
+		}
+		first := string([]rune(src)[0])
+		for _, action := range []string{"error", "eof_code", "reset"} {
+			for _, skip := range []int{0, 1} { // record the position at the start, or after one character
+				for _, extra := range []int{0, 1} { // one more read after end_of_file was delivered (not for eof_action(error))
+					if extra == 1 && action == "error" {
+						continue
+					}
+					p := prolog.New(nil, nil)
+					var goals []string
+					goals = append(goals, fmt.Sprintf("open(%s, read, S, [reposition(true), eof_action(%s)])", quoteAtom(tmp), action))
+					want := first
+					if skip == 1 {
+						goals = append(goals, "get_char(S, _)")
+						r := []rune(src)
+						if len(r) > 1 {
+							want = string(r[1])
+						} else {
+							want = "end_of_file"
+						}
+					}
+					goals = append(goals, "stream_property(S, position(P0))")
+					for range []rune(src)[skip:] {
+						goals = append(goals, "get_char(S, _)")
+					}
+					goals = append(goals, "get_char(S, E1)")
+					if extra == 1 {
+						goals = append(goals, "get_char(S, _)")
+					}
+					goals = append(goals, "set_stream_position(S, P0)", "stream_property(S, end_of_stream(X))", "get_char(S, L)", "close(S)")
+					q := strings.Join(goals, ", ") + " ."
+					desc := map[string]interface{}{"text": q, "query": q, "source": src, "vars": []string{"E1", "X", "L"}}
+					sum.Cases[fmt.Sprint(id)] = desc
+					sum.Evaluations++
+					sum.count("rewind:" + action)
+					out := runQuery(p, 1, []string{"E1", "X", "L"}, q)
+					got := fmt.Sprint(out.Err, out.GoErr)
+					if len(out.Answers) == 1 {
+						got = fmt.Sprint(out.Answers[0]["E1"], " ", out.Answers[0]["X"], " ", out.Answers[0]["L"])
+					}
+					wantEnd := "not"
+					if want == "end_of_file" {
+						wantEnd = "at"
+					}
+					exp := fmt.Sprint("end_of_file ", wantEnd, " ", quoteAtom(want))
+					if got != exp && !(wantEnd == "at" && got == fmt.Sprint("end_of_file not ", quoteAtom(want))) {
+						sum.Failures = append(sum.Failures, failure{ID: id, Class: "stream:after-set_stream_position", Input: desc, Observed: got, Expected: exp})
+					}
+					id++
+				}
+			}
+		}
+	}
 }
 
 // iotestWriter hides every method of the sink but Write.
